@@ -183,8 +183,10 @@ def main(argv=None):
     for key in sorted(stats.findings):
         entry = match_known(open_known, key)
         if entry is not None:
-            slot = known_hit.setdefault(entry['key'], {'what': entry['what'], 'cases_excluded': 0})
+            slot = known_hit.setdefault(entry['key'], {'what': entry['what'], 'cases_excluded': 0, 'matched_keys': []})
             slot['cases_excluded'] += stats.findings[key]['count']
+            if len(slot['matched_keys']) < 40:
+                slot['matched_keys'].append(key)      # what a wildcard entry actually swallowed in this run
         else:
             new_keys.append(key)
     for key, slot in sorted(known_hit.items()):
